@@ -400,10 +400,22 @@ Proof. split; vm_compute; reflexivity. Qed.
 
 PROPS['C18'] = dict(
     title='C18 - errors name the member in which parsing or building failed',
-    requires=['ConInd'],
+    requires=['ConInd', 'Build', 'PathFacts'],
+    prelude='Local Open Scope nat_scope.',
     theorems=[
         ('PathFacts', 'parse_path_extends', 'For EVERY construct of the model (induction over all 59 classes, all loops): an error raised while parsing carries a path that extends the path the construct was entered with - no wrapper drops, reorders or invents enclosing names.'),
         ('PathFacts', 'sizeof_path_extends', 'The same for sizeof, every construct.'),
+        ('PathExact', 'parse_path_is_chain', 'EXACTNESS, every construct of the model: what follows the entry path in the path of a parse error is a chain of the construct - the names of the Renamed nodes crossed, in order, from the construct down to one of its sub-constructs; nothing invented, nothing dropped in the middle, nothing reordered.'),
+        ('PathExact', 'sizeof_path_is_chain', 'The same for sizeof, every construct.'),
+        ('BuildPath', 'build_path_is_chain_dec', 'The same for building, every construct that contains no Select (Select._build calls the public build of its alternatives, which restarts the path; outside the quantified shapes).'),
+        ('PathExact', 'entry_parse_path_is_chain', 'On the public entry point the whole member path of a parse error is a chain of the construct.'),
+        ('BuildPath', 'entry_build_path_is_chain', 'Likewise for build().'),
+        ('PathExact', 'chain_enumerated', 'The chains of a construct are finitely many and computable (chains c): the possible error paths of a format can be listed.'),
+        ('PathExact', 'struct_reports_failing_member', 'A Struct reports exactly the error (class and path, unchanged) of the first member that fails, after all earlier members parsed.'),
+        ('PathExact', 'sequence_reports_failing_member', 'The same for Sequence.'),
+        ('PathExact', 'first_failure_member', 'That member is a member of the struct, and when it is named its name comes right after the entry path, followed by a chain of that member.'),
+        ('PathExact', 'array_reports_failing_element', 'An Array reports exactly the error of one of its elements (parsed with its own _index), or its own RangeError at the entry path.'),
+        ('PathExact', 'ex_shape_paths', 'For a concrete three-level shape: every error of every parse on any input names one of six listed member chains.'),
         ('PathFacts', 'renamed_appends_name', 'Renamed appends exactly its own name, for parse, build and sizeof.'),
         ('PathFacts', 'member_error_names_member', 'An error raised anywhere inside member n names n right after the enclosing path.'),
         ('PathFacts', 'entry_points_start_empty', 'The public entry points start from the empty member path (the operation marker is the caller\'s).'),
@@ -488,6 +500,10 @@ PROPS['C04'] = dict(
         ('CompiledFacts', 'eval_set_index', 'An expression that does not name _index evaluates identically whether or not the loop maintains _index (the emitted loops do not).'),
         ('CompiledFacts', 'pred_index_free_no_index', 'Hence every RepeatUntil predicate that does not name _index satisfies the side condition.'),
         ('CompiledFacts', 'index_free_bytes', 'Side condition instance: Bytes(e) with e not naming _index.'),
+        ('IndexFacts', 'parse_index_irrelevant', 'For EVERY construct of the fragment ixfrag (no Index field, no expression naming _index; closed under every adapter, Struct, Sequence, FocusedSeq, IfThenElse, Switch, Array, GreedyRange, RepeatUntil, Padded, Aligned, Pointer, Peek, RawCopy, Prefixed, FixedSized, NullTerminated, NullStripped to any depth): parsing in two contexts that differ only in their _index entries gives the same result.'),
+        ('IndexFacts', 'ixfrag_index_free', 'Hence the index side condition of Array / RepeatUntil holds for every element of that fragment, of any depth.'),
+        ('IndexFacts', 'cfrag_array', 'Array(e, c) is in the compiled fragment whenever c is and c never names _index.'),
+        ('IndexFacts', 'cfrag_until', 'Likewise RepeatUntil(pred, c).'),
         ('CompiledFacts', 'size_exact_format', 'Side condition instance: the static size of an Int*/Float* is what it consumes.'),
         ('CompiledFacts', 'bsize_exact_format', 'Side condition instance (build): an Int*/Float* writes exactly its static size.'),
         ('CompiledFacts', 'ex_compilable_in_fragment', 'A struct with a context-sized field, a counted array with an arithmetic count, Padded, a self-including Prefixed, RepeatUntil and IfThenElse over VarInt is in the fragment with every side condition discharged.'),
